@@ -271,8 +271,19 @@ def wire_worker(args):
         steps.append(wire.S("<iq type='get' id='di-plain' from='bob@example.org/x' to='%s'><query xmlns='http://jabber.org/protocol/disco#info'/></iq>" % wire.JID))
         steps.append(wire.S("<iq type='get' id='di-node' from='bob@example.org/x' to='%s'><query xmlns='http://jabber.org/protocol/disco#info' node='$CAPS'/></iq>" % wire.JID))
         steps.append(dict(op="fence"))
+        # the application changes what it advertises while connected and publishes its presence again: the new <c ver/> must match the new answer
+        change = {}
+        if r.random() < 0.6:
+            k = r.choice(["clientName", "clientType", "clientCategory", "infoFormValue"])
+            change = {k: {"clientName": tok(r, 7), "clientType": r.choice(["phone", "bot", "web"]), "clientCategory": r.choice(["automation", "client", "gateway"]), "infoFormValue": tok(r, 5)}[k]}
+            steps.append(dict(op="discoSet", **change))
+            steps.append(dict(op="clientPresence", status="changed"))
+            steps.append(dict(op="fence"))
+            steps.append(wire.S("<iq type='get' id='di-node2' from='bob@example.org/x' to='%s'><query xmlns='http://jabber.org/protocol/disco#info' node='$CAPS'/></iq>" % wire.JID))
+            steps.append(wire.S("<iq type='get' id='di-plain2' from='bob@example.org/x' to='%s'><query xmlns='http://jabber.org/protocol/disco#info'/></iq>" % wire.JID))
+            steps.append(dict(op="fence"))
         cases.append(dict(steps=steps, timeout=4000))
-        metas.append((managers, opts))
+        metas.append((managers, dict(opts, changed_while_connected=change)))
     outs, crashes = wire.run_cases(binary, cases)
     viol, stats = [], collections.Counter()
     for rq, info in crashes:
@@ -281,37 +292,43 @@ def wire_worker(args):
         if not out:
             continue
         j = out["journal"]
-        caps = None
+        capsl = []
         for e in wire.srv_rx(j):
             if e["tag"] == "presence" and "protocol/caps" in e.get("xml", ""):
                 d = minidom.parseString(e["xml"].encode("utf8")).documentElement
                 for c in d.childNodes:
                     if c.nodeType == 1 and c.localName == "c":
-                        caps = {"node": c.getAttribute("node"), "ver": c.getAttribute("ver"), "hash": c.getAttribute("hash")}
-        if caps is None:
+                        capsl.append({"node": c.getAttribute("node"), "ver": c.getAttribute("ver"), "hash": c.getAttribute("hash")})
+        if not capsl:
             stats["no_caps_in_presence"] += 1
             continue
         stats["sessions"] += 1
-        replies = {e["id"]: e for e in wire.srv_rx(j) if e["tag"] == "iq" and e["id"] in ("di-plain", "di-node")}
-        w = {"managers": managers, "client_options": opts, "advertised": caps}
-        for rid in ("di-plain", "di-node"):
-            e = replies.get(rid)
-            if e is None or e["type"] != "result":
-                viol.append(("disco-info-not-answered %s" % rid, "the client did not answer a disco#info query%s with a result" % (" for the advertised node#ver" if rid == "di-node" else ""), dict(w, reply=e and e.get("xml", "")[:1500])))
-                continue
-            ids, feats, form, node = parse_info(e["xml"])
-            h = xep0115(ids, feats, form)
-            stats["replies_hashed"] += 1
-            if caps["hash"] != "sha-1":
-                viol.append(("advertised-hash-algorithm %s" % caps["hash"], "presence advertises a caps hash algorithm other than sha-1", w))
-            elif h != caps["ver"]:
-                viol.append(("advertised-ver-differs-from-answer %s%s" % (rid, " form" if form else ""), "the ver advertised in presence is not the XEP-0115 hash of the disco#info answer", dict(w, answer=e["xml"][:4000], hash_of_answer=h)))
-            else:
-                stats["ver_matches"] += 1
-                if form:
-                    stats["ver_matches_with_form"] += 1
-            if rid == "di-node" and node != "%s#%s" % (caps["node"], caps["ver"]):
-                viol.append(("answer-node-differs", "the answer to a query for node#ver names another node", dict(w, answer=e["xml"][:2000])))
+        replies_all = {e["id"]: e for e in wire.srv_rx(j) if e["tag"] == "iq" and e["id"] in ("di-plain", "di-node", "di-plain2", "di-node2")}
+        rounds = [(capsl[0], ("di-plain", "di-node"))]
+        if opts.get("changed_while_connected") and len(capsl) > 1:
+            rounds.append((capsl[-1], ("di-plain2", "di-node2")))
+            stats["identity_changed_while_connected"] += 1
+        for caps, rids in rounds:
+            replies = replies_all
+            w = {"managers": managers, "client_options": opts, "advertised": caps, "all_advertised": capsl}
+            for rid in rids:
+                e = replies.get(rid)
+                if e is None or e["type"] != "result":
+                    viol.append(("disco-info-not-answered %s" % rid, "the client did not answer a disco#info query%s with a result" % (" for the advertised node#ver" if rid == "di-node" else ""), dict(w, reply=e and e.get("xml", "")[:1500])))
+                    continue
+                ids, feats, form, node = parse_info(e["xml"])
+                h = xep0115(ids, feats, form)
+                stats["replies_hashed"] += 1
+                if caps["hash"] != "sha-1":
+                    viol.append(("advertised-hash-algorithm %s" % caps["hash"], "presence advertises a caps hash algorithm other than sha-1", w))
+                elif h != caps["ver"]:
+                    viol.append(("advertised-ver-differs-from-answer %s%s" % (rid, " form" if form else ""), "the ver advertised in presence is not the XEP-0115 hash of the disco#info answer", dict(w, answer=e["xml"][:4000], hash_of_answer=h)))
+                else:
+                    stats["ver_matches"] += 1
+                    if form:
+                        stats["ver_matches_with_form"] += 1
+                if rid == "di-node" and node != "%s#%s" % (caps["node"], caps["ver"]):
+                    viol.append(("answer-node-differs", "the answer to a query for node#ver names another node", dict(w, answer=e["xml"][:2000])))
         stats["features_seen"] = max(stats["features_seen"], len(feats))
     return viol, dict(stats)
 
